@@ -39,6 +39,8 @@ def build(m):
     m.methods[('FileWrapper', '__init__')] = MOD + ':FileWrapper.__init__'
     m.add(Contract(MOD + ':FileWrapper.__init__',
                    [('self', FW), ('lines', TList(STR)), ('start_line', INT, mk_int(1))],
+                   # data invariant LINES_NL is established here: whoever wraps a line list proves it
+                   requires=[("forall(lambda i: lines[i].endswith('\\n'), 0, len(lines))", ['C01', 'C04', 'C15'])],
                    ensures=['same(self.lines, lines)', 'self.start_line == start_line',
                             'self._index == -1', 'CURSOR_OK(self)'],
                    modifies=['self.lines', 'self.start_line', 'self._index', 'self._anchor'], prop=P))
@@ -111,7 +113,7 @@ def build(m):
     m.add(Contract(MOD + ':tokenize_block',
                    [('iterable', TList(STR)), ('token_types', TList(BLOCKCLS)), ('start_line', INT, mk_int(1))],
                    returns=PB,
-                   requires=[],
+                   requires=[("forall(lambda i: iterable[i].endswith('\\n'), 0, len(iterable))", ['C01', 'C04', 'C15'])],
                    ensures=[
                        # C13: every recorded line number is start_line + index of the first line
                        # consumed by that block's read()
